@@ -25,9 +25,12 @@ def _field_key(e: ast.AST):
 
 
 def _cache_sub_key(e: ast.AST, cache: str):
-    """cache['sigfieldN'] -> N"""
+    """cache['sigfieldN'] / cache.get('sigfieldN') -> N"""
     if isinstance(e, ast.Subscript) and isinstance(e.value, ast.Name) and e.value.id == cache:
         return _field_key(e.slice)
+    if isinstance(e, ast.Call) and isinstance(e.func, ast.Attribute) and e.func.attr == 'get' and \
+            isinstance(e.func.value, ast.Name) and e.func.value.id == cache and len(e.args) == 1:
+        return _field_key(e.args[0])
     return None
 
 
@@ -90,6 +93,16 @@ def run(w: World, rep: Report):
                     isinstance(a.comparators[0], ast.Name) and a.comparators[0].id == cache:
                 k = _field_key(a.left)
                 present = pol if isinstance(a.ops[0], ast.In) else not pol
+                if k == i and present:
+                    has_presence = True
+                else:
+                    extra.append(f'presence test of sigfield{k} (polarity {present})')
+                continue
+            if isinstance(a, ast.Compare) and len(a.ops) == 1 and isinstance(a.ops[0], (ast.Is, ast.IsNot)) and \
+                    isinstance(a.comparators[0], ast.Constant) and a.comparators[0].value is None and \
+                    _cache_sub_key(a.left, cache) is not None:
+                k = _cache_sub_key(a.left, cache)
+                present = (not pol) if isinstance(a.ops[0], ast.Is) else pol
                 if k == i and present:
                     has_presence = True
                 else:
